@@ -73,7 +73,7 @@ var hostShapes = []hostShape{
 }
 
 // universal names that generated code never uses, available for shadowing by globals
-var shadowUniversal = []string{"max", "min", "zip", "any", "all", "hash", "dir", "print", "reversed", "enumerate"}
+var shadowUniversal = []string{"max", "min", "any", "all", "hash", "dir", "print", "getattr", "hasattr", "bytes"}
 
 type gen struct {
 	r      *rand.Rand
@@ -595,6 +595,7 @@ func init() {
 			g.feature("set-of-bound-method")
 		}},
 		{"derive", 9, func(g *gen) { g.derive() }},
+		{"alias", 9, func(g *gen) { g.alias() }},
 		{"json", 1, func(g *gen) {
 			v := g.fresh("v")
 			if g.r.Intn(2) == 0 {
@@ -817,6 +818,93 @@ func (g *gen) derive() {
 	}
 	g.feature("derive:" + kind + " " + form)
 	g.feature("derive-source:" + src)
+}
+
+// Forms that could alias their frozen operand F (return it, or share its storage) if implemented
+// carelessly: expression template (%s = F) and the kind of the derived value.
+type aliasForm struct{ name, expr, kind string }
+
+var aliasForms = map[string][]aliasForm{
+	"list": {
+		{"F*1", "%s * 1", "list"}, {"1*F", "1 * %s", "list"}, {"F*n(n==1)", `%s * len("x")`, "list"}, {"n*F(n==1)", `(3 - 2) * %s`, "list"},
+		{"F+[]", "%s + []", "list"}, {"[]+F", "[] + %s", "list"}, {"F[:]", "%s[:]", "list"}, {"F[0:len(F)]", "%[1]s[0:len(%[1]s)]", "list"},
+		{"F[::1]", "%s[::1]", "list"}, {"list(F)", "list(%s)", "list"}, {"sorted(F)", "sorted(%s)", "list"},
+		{"sorted(F,key)", "sorted(%s, key = lambda e: 0)", "list"}, {"reversed(F)", "reversed(%s)", "list"}, {"zip(F)", "zip(%s)", "list"},
+		{"[e for e in F]", "[e for e in %s]", "list"}, {"tuple(F)", "tuple(%s)", "tuple"}, {"enumerate(F)", "enumerate(%s)", "list"},
+	},
+	"tuple": {
+		{"F*1", "%s * 1", "tuple"}, {"1*F", "1 * %s", "tuple"}, {"F[:]", "%s[:]", "tuple"}, {"F+()", "%s + ()", "tuple"}, {"F[0:1]", "%s[0:1]", "tuple"},
+		{"tuple(F)", "tuple(%s)", "tuple"}, {"list(F)", "list(%s)", "list"}, {"sorted(F,key)", "sorted(%s, key = lambda e: 0)", "list"},
+		{"zip(F)", "zip(%s)", "list"}, {"reversed(F)", "reversed(%s)", "list"},
+	},
+	"dict": {
+		{"F|{}", "%s | {}", "dict"}, {"{}|F", "{} | %s", "dict"}, {"dict(F)", "dict(%s)", "dict"}, {"F.items()", "%s.items()", "list"},
+		{"F.keys()", "%s.keys()", "list"}, {"F.values()", "%s.values()", "list"}, {"dict(F.items())", "dict(%s.items())", "dict"},
+		{"{k:v for k,v in F.items()}", "{k: v for k, v in %s.items()}", "dict"}, {"list(F)", "list(%s)", "list"}, {"sorted(F,key)", "sorted(%s, key = lambda e: 0)", "list"},
+	},
+	"set": {
+		{"F|set()", "%s | set()", "set"}, {"set()|F", "set() | %s", "set"}, {"F.union()", "%s.union()", "set"}, {"F.union([])", "%s.union([])", "set"},
+		{"set(F)", "set(%s)", "set"}, {"F&F", "%[1]s & %[1]s", "set"}, {"F-set()", "%s - set()", "set"}, {"F.difference([])", "%s.difference([])", "set"},
+		{"list(F)", "list(%s)", "list"}, {"sorted(F,key)", "sorted(%s, key = lambda e: 0)", "list"},
+	},
+	"struct": {
+		{"F+struct()", "%s + struct()", "struct"}, {"struct()+F", "struct() + %s", "struct"},
+	},
+}
+
+// mutations tried on the derived value while it is still mutable (inside the module), by kind
+var aliasMutations = map[string][]string{
+	"list": {"c[0] = 99", "c[-1] = 98", "c.append(97)", "c.extend([96])", "c.insert(0, 95)", "c.pop()", "c.clear()", "c += [94]",
+		"c[0].append(93)", "c.remove(c[0])", "c[0] += [92]", "c[-1].clear()", `c[0]["zz"] = 91`},
+	"dict": {`c["zq"] = 1`, `c.setdefault("zr", 2)`, "c.update(zs = 3)", "c.pop(c.keys()[0])", "c.popitem()", "c.clear()", `c |= {"zt": 4}`,
+		"c[c.keys()[0]] = 90", "c.values()[0].append(89)", "c.values()[-1].clear()"},
+	"set":    {"c.add(99)", "c.pop()", "c.clear()", "c.discard(list(c)[0])", "c.update([98])", "c.remove(list(c)[0])"},
+	"tuple":  {"c[0].append(93)", "c[0] = 99", "c[-1].clear()", `c[0]["zz"] = 1`, "c[0][0] = 88"},
+	"struct": {"c.base_items.append(1)", "c.items.append(1)", "c.a = 1", "c.lst.clear()"},
+}
+
+// alias emits a function that derives a value from a frozen operand by a form that could alias it,
+// then mutates the derived value; the host built-in attempt() calls it once per mutation, swallows
+// any error, and compares the canonical snapshot of all frozen inputs afterwards.
+func (g *gen) alias() {
+	kind := []string{"list", "list", "list", "tuple", "dict", "dict", "set", "struct"}[g.r.Intn(8)]
+	var loaded []gvar
+	for _, lv := range g.vars {
+		if lv.frozen && hostFrozen[lv.kind] != "" {
+			loaded = append(loaded, lv)
+		}
+	}
+	if len(loaded) > 0 && g.r.Intn(3) != 0 {
+		kind = loaded[g.r.Intn(len(loaded))].kind
+	}
+	repeat := g.r.Intn(4) == 0 // repetition by exactly one: the classic "nothing to copy" shortcut
+	if repeat {
+		kind = "list"
+	}
+	F, src := g.frozenOperand(kind)
+	forms := aliasForms[kind]
+	if repeat {
+		forms = forms[:4]
+	}
+	af := forms[g.r.Intn(len(forms))]
+	f, v := g.fresh("za"), g.fresh("v")
+	muts := aliasMutations[af.kind]
+	g.emit("def %s(k):", f)
+	g.emit("    c = "+af.expr, F)
+	for i, mu := range muts {
+		kw := "elif"
+		if i == 0 {
+			kw = "if"
+		}
+		g.emit("    %s k == %d:", kw, i)
+		g.emit("        %s", mu)
+	}
+	g.emit("    return c")
+	g.emit("%s = [attempt(%q, %s, k) for k in range(%d)]", v, kind+" "+af.name, f, len(muts)+1)
+	g.regKeep(f, "func", true)
+	g.reg(v, "list", false)
+	g.feature("alias:" + kind + " " + af.name)
+	g.feature("alias-source:" + src)
 }
 
 // fp0 turns a fresh literal into a list literal (whose bound method is hashable).
